@@ -10,12 +10,13 @@ Record st := {
   idx : option nat;                      (* _arrow_table_fetch_index *)
   asz : nat;                             (* _arraysize *)
   dictc : bool;                          (* _use_dict_result *)
+  rc : option nat;                       (* _rowcount *)
 }.
 
-Definition init (d : bool) : st := {| res := None; idx := None; asz := 1%nat; dictc := d |}.
+Definition init (d : bool) : st := {| res := None; idx := None; asz := 1%nat; dictc := d; rc := None |}.
 
 Inductive op :=
-| Execute (rows : list row) (names : list str)
+| Execute (rows : list row) (names : list str) (affected : option nat)   (* affected = DuckDB's count for DML *)
 | Fetchone
 | Fetchmany (k : option nat)
 | Fetchall
@@ -46,17 +47,18 @@ Definition off (s : st) : nat := match idx s with None => 0%nat | Some i => i en
 (* fetchmany after `size = size or self._arraysize` *)
 Definition slice (s : st) (size : nat) (rows : list row) : list row := firstn size (skipn (off s) rows).
 Definition advance (s : st) (size : nat) : st :=
-  {| res := res s; idx := Some (off s + size)%nat; asz := asz s; dictc := dictc s |}.
+  {| res := res s; idx := Some (off s + size)%nat; asz := asz s; dictc := dictc s; rc := rc s |}.
 
 Definition eff_size (s : st) (k : option nat) : nat :=
   match k with None | Some O => asz s | Some n => n end.
 
 Definition step (s : st) (o : op) : st * out :=
   match o with
-  | Execute rows names =>
-      ({| res := Some (rows, names); idx := None; asz := asz s; dictc := dictc s |}, OUnit)
-  | SetArraysize n => ({| res := res s; idx := idx s; asz := n; dictc := dictc s |}, OUnit)
-  | Rowcount => (s, OCount (match res s with None => None | Some (rows, _) => Some (length rows) end))
+  | Execute rows names aff =>
+      ({| res := Some (rows, names); idx := None; asz := asz s; dictc := dictc s;
+          rc := Some (match aff with Some k => k | None => length rows end) |}, OUnit)
+  | SetArraysize n => ({| res := res s; idx := idx s; asz := n; dictc := dictc s; rc := rc s |}, OUnit)
+  | Rowcount => (s, OCount (rc s))
   | FetchPandas =>
       (s, match res s with None => OErr 2 | Some (rows, _) => OCount (Some (length rows)) end)
   | Fetchmany k =>
@@ -113,9 +115,9 @@ Definition enc_out (o : out) : sexp :=
   end.
 Definition dec_op (x : sexp) : option op :=
   match x with
-  | L [A 0; rows; names] =>
-      match dec_list (dec_list dec_value) rows, dec_list dec_str names with
-      | Some r, Some n => Some (Execute r n) | _, _ => None end
+  | L [A 0; rows; names; aff] =>
+      match dec_list (dec_list dec_value) rows, dec_list dec_str names, dec_opt dec_nat aff with
+      | Some r, Some n, Some a => Some (Execute r n a) | _, _, _ => None end
   | L [A 1] => Some Fetchone
   | L [A 2; k] => match dec_opt dec_nat k with Some k => Some (Fetchmany k) | None => None end
   | L [A 3] => Some Fetchall
